@@ -33,6 +33,11 @@
    m(value) — m the caller's StateModifier, identity if none — into a NEW object with a new
    lock and every instance that saw the old object now sees the new one.
 
+   Ghost state (never read by a transition): [c_acq] is the log of lock acquisitions,
+   [c_trace] the log of completed user functions (appended at the store, with the value
+   that went in, the state that was loaded and the value that came out), [c_gens] the log
+   of generator calls, [o_init]/[o_inst]/[o_origin] remember where an object came from.
+
    Generic in the state type S, the value type X and the user functions. *)
 From Eino Require Import Base.Util Model.StateLock.
 
@@ -69,16 +74,25 @@ Section LTS.
     i_run : N; i_graph : nat; i_parent : option nat; i_obj : option nat; i_in : X;
     i_ns : list (N * nstat); i_doneq : list N }.
 
-  Record objrec := mkObj { o_val : S; o_holder : option (nat * N); o_init : S; o_inst : nat }.
+  (* where an object comes from: the generator of graph g, or the checkpointed value of
+     object o passed through the caller's modifier m *)
+  Inductive origin := OGen (g : nat) | OResumed (o : nat) (m : S -> S).
 
-  (* ghost log, oldest first: object, instance, node, kind, value of the register at
-     acquisition *)
-  Record tentry := mkT { t_obj : nat; t_inst : nat; t_node : node; t_kind : kind; t_x : X }.
+  Record objrec := mkObj {
+    o_val : S; o_holder : option (nat * N); o_init : S; o_inst : nat; o_origin : origin }.
+
+  (* ghost log of completed user functions, oldest first: object, instance, node, kind,
+     value that went in, state that was loaded, value that came out *)
+  Record tentry := mkT {
+    t_obj : nat; t_inst : nat; t_node : node; t_kind : kind; t_x : X; t_seen : S; t_out : X }.
+  (* ghost log of lock acquisitions, oldest first *)
+  Record aentry := mkA { a_obj : nat; a_inst : nat; a_node : N; a_kind : kind }.
 
   Record config := mkCfg {
-    c_insts : list inst; c_objs : list objrec; c_trace : list tentry; c_gens : list nat }.
+    c_insts : list inst; c_objs : list objrec; c_trace : list tentry; c_acq : list aentry;
+    c_gens : list nat }.
 
-  Definition init_cfg : config := mkCfg [] [] [] [].
+  Definition init_cfg : config := mkCfg [] [] [] [] [].
 
   (* which critical section comes next at this position, if any *)
   Definition next_cs (a : node) (p : pos) : option kind :=
@@ -117,9 +131,17 @@ Section LTS.
     mkInst (i_run J) (i_graph J) (i_parent J) o (i_in J) (i_ns J) (i_doneq J).
 
   Definition set_inst (c : config) (i : nat) (J : inst) : config :=
-    mkCfg (upd (c_insts c) i J) (c_objs c) (c_trace c) (c_gens c).
+    mkCfg (upd (c_insts c) i J) (c_objs c) (c_trace c) (c_acq c) (c_gens c).
   Definition set_obj (c : config) (o : nat) (r : objrec) : config :=
-    mkCfg (c_insts c) (upd (c_objs c) o r) (c_trace c) (c_gens c).
+    mkCfg (c_insts c) (upd (c_objs c) o r) (c_trace c) (c_acq c) (c_gens c).
+  Definition add_trace (c : config) (e : tentry) : config :=
+    mkCfg (c_insts c) (c_objs c) (c_trace c ++ [e]) (c_acq c) (c_gens c).
+  Definition add_acq (c : config) (e : aentry) : config :=
+    mkCfg (c_insts c) (c_objs c) (c_trace c) (c_acq c ++ [e]) (c_gens c).
+  Definition with_holder (r : objrec) (h : option (nat * N)) : objrec :=
+    mkObj (o_val r) h (o_init r) (o_inst r) (o_origin r).
+  Definition with_val (r : objrec) (v : S) : objrec :=
+    mkObj v (o_holder r) (o_init r) (o_inst r) (o_origin r).
 
   Definition init_ns (g : graph) : list (N * nstat) :=
     map (fun a => (n_id a, mkNs PWait None)) (g_nodes g).
@@ -132,10 +154,10 @@ Section LTS.
     if g_state G then
       let o := List.length (c_objs c) in
       mkCfg (c_insts c ++ [mkInst r g parent (Some o) x (init_ns G) []])
-            (c_objs c ++ [mkObj (gen g) None (gen g) i]) (c_trace c) (c_gens c ++ [g])
+            (c_objs c ++ [mkObj (gen g) None (gen g) i (OGen g)]) (c_trace c) (c_acq c) (c_gens c ++ [g])
     else
       mkCfg (c_insts c ++ [mkInst r g parent inherited x (init_ns G) []])
-            (c_objs c) (c_trace c) (c_gens c).
+            (c_objs c) (c_trace c) (c_acq c) (c_gens c).
 
   Definition final_of (J : inst) (n : N) : option X :=
     match get_ns J n with
@@ -176,6 +198,13 @@ Section LTS.
       end
     end.
 
+  (* resume: an instance that saw object o now sees o' *)
+  Definition remap (o o' : nat) (J : inst) : inst :=
+    match i_obj J with
+    | Some o1 => if Nat.eqb o1 o then set_iobj J (Some o') else J
+    | None => J
+    end.
+
   Definition pstep (c : config) (ch : choice) : option config :=
     match ch with
     | ChStart r =>
@@ -189,11 +218,13 @@ Section LTS.
           match next_cs a p, pos_x p, i_obj J with
           | Some k, Some x, Some o =>
             match nth_error (c_objs c) o with
-            | Some (mkObj v None v0 oi) =>
-                let c1 := set_obj c o (mkObj v (Some (i, n)) v0 oi) in
-                let c2 := mkCfg (c_insts c1) (c_objs c1) (c_trace c1 ++ [mkT o i a k x]) (c_gens c1) in
-                Some (set_inst c2 i (set_ns J n (mkNs p (Some CsAcq))))
-            | _ => None
+            | Some r =>
+                match o_holder r with
+                | None => Some (set_inst (add_acq (set_obj c o (with_holder r (Some (i, n)))) (mkA o i n k)) i
+                                         (set_ns J n (mkNs p (Some CsAcq))))
+                | Some _ => None          (* Lock blocks *)
+                end
+            | None => None
             end
           | _, _, _ => None          (* no state visible: ProcessState fails, the run fails *)
           end
@@ -219,7 +250,7 @@ Section LTS.
             match nth_error (c_objs c) o with
             | Some r =>
                 let '(x', s') := hfun k (n_id a) x l in
-                Some (set_inst (set_obj c o (mkObj s' (o_holder r) (o_init r) (o_inst r))) i
+                Some (set_inst (add_trace (set_obj c o (with_val r s')) (mkT o i a k x l x')) i
                                (set_ns J n (mkNs (set_x p x') (Some CsStored))))
             | None => None
             end
@@ -236,7 +267,7 @@ Section LTS.
             | Some r =>
                 let J' := set_ns J n (mkNs (after_cs p) None) in
                 let J'' := match p with PDone _ => set_doneq J' (remove N.eq_dec n (i_doneq J')) | _ => J' end in
-                Some (set_inst (set_obj c o (mkObj (o_val r) None (o_init r) (o_inst r))) i J'')
+                Some (set_inst (set_obj c o (with_holder r None)) i J'')
             | None => None
             end
           | None => None
@@ -300,15 +331,26 @@ Section LTS.
         end
     | ChResume o m =>
         match nth_error (c_objs c) o with
-        | Some (mkObj v None v0 oi) =>
-            let o' := List.length (c_objs c) in
-            Some (mkCfg (map (fun J => match i_obj J with
-                                       | Some o1 => if Nat.eqb o1 o then set_iobj J (Some o') else J
-                                       | None => J
-                                       end) (c_insts c))
-                        (c_objs c ++ [mkObj (m v) None (m v) oi]) (c_trace c) (c_gens c))
-        | _ => None
+        | Some r =>
+            match o_holder r with
+            | None => Some (mkCfg (map (remap o (List.length (c_objs c))) (c_insts c))
+                                  (c_objs c ++ [mkObj (m (o_val r)) None (m (o_val r)) (o_inst r) (OResumed o m)])
+                                  (c_trace c) (c_acq c) (c_gens c))
+            | Some _ => None
+            end
+        | None => None
         end
+    end.
+
+  (* the same system with a lock that does not block (what a handler that forgets the mutex
+     amounts to): used only to show that the theorems depend on the lock
+     (no_lost_update_without_lock_refuted) *)
+  Definition clear_holders (c : config) : config :=
+    mkCfg (c_insts c) (map (fun r => with_holder r None) (c_objs c)) (c_trace c) (c_acq c) (c_gens c).
+  Definition pstep_nolock (c : config) (ch : choice) : option config :=
+    match ch with
+    | ChAcq _ _ => pstep (clear_holders c) ch
+    | _ => pstep c ch
     end.
 
   (* ---------------------------------------------------------------- run-loop constraints *)
@@ -384,6 +426,8 @@ Section LTS.
     exists J s ph, nth_error (c_insts c) i = Some J /\ get_ns J n = Some s /\
                    ns_cs s = Some ph /\ i_obj J = Some o.
 
+  (* effect of a logged critical section on the state: the user function applied to the
+     value that went in (and to whatever state it finds) *)
   Definition eff (e : tentry) : S -> S := fun s => snd (hfun (t_kind e) (n_id (t_node e)) (t_x e) s).
   Definition hist (c : config) (o : nat) : list tentry :=
     filter (fun e => Nat.eqb (t_obj e) o) (c_trace c).
@@ -391,6 +435,109 @@ Section LTS.
 
   Definition stateful (J : inst) : bool :=
     match nth_error f (i_graph J) with Some G => g_state G | None => false end.
+
+  (* kinds of the critical sections of node n of instance i in a piece of the log *)
+  Definition kinds_in (i : nat) (n : N) (t : list tentry) : list kind :=
+    map t_kind (filter (fun e => Nat.eqb (t_inst e) i && N.eqb (n_id (t_node e)) n) t).
+  (* kinds of the critical sections of node n of instance i completed so far, oldest first *)
+  Definition node_tr (c : config) (i : nat) (n : N) : list kind := kinds_in i n (c_trace c).
+
+  (* the critical sections one execution of node a performs, in the order the property demands:
+     pre-handler, the ProcessState calls of the body one after the other, post-handler *)
+  Definition pre_k (a : node) : list kind := if n_pre a then [KPre] else [].
+  Definition bodies (j : nat) : list kind := map KBody (seq 0 j).
+  Definition body_k (a : node) : list kind :=
+    match n_sub a with Some _ => [] | None => bodies (n_ps a) end.
+  Definition post_k (a : node) : list kind := if n_post a then [KPost] else [].
+  Definition full_kinds (a : node) : list kind := pre_k a ++ body_k a ++ post_k a.
+
+  Definition kind_before (k1 k2 : kind) : Prop :=
+    match k1, k2 with
+    | KPre, KBody _ | KPre, KPost | KBody _, KPost => True
+    | KBody i, KBody j => (i < j)%nat
+    | _, _ => False
+    end.
+
+
+  (* ---- value flow (specification side): which value a critical section / a node must
+     receive, in terms of what the handlers returned (logged [t_out]) and of final outputs *)
+
+  (* y is the final output of node n of instance i *)
+  Definition fin (c : config) (i : nat) (n : N) (y : X) : Prop :=
+    exists J, nth_error (c_insts c) i = Some J /\ final_of J n = Some y.
+  (* the critical section of kind k of node n of instance i returned x *)
+  Definition ret (c : config) (i : nat) (n : N) (k : kind) (x : X) : Prop :=
+    exists e, In e (c_trace c) /\ t_inst e = i /\ n_id (t_node e) = n /\ t_kind e = k /\ t_out e = x.
+  (* x is what the predecessors (or the graph's input) deliver to node a *)
+  Definition is_in (c : config) (i : nat) (a : node) (x : X) : Prop :=
+    exists J, nth_error (c_insts c) i = Some J /\
+      match n_preds a with
+      | [] => x = i_in J
+      | ps => exists ys, Forall2 (fin c i) ps ys /\ x = mrg ys
+      end.
+  (* x is the node's input: what the pre-handler returned if there is one *)
+  Definition is_pre (c : config) (i : nat) (a : node) (x : X) : Prop :=
+    if n_pre a then ret c i (n_id a) KPre x else is_in c i a x.
+  (* x is what the j-th ProcessState callback of the lambda must receive *)
+  Definition is_bodyin (c : config) (i : nat) (a : node) (j : nat) (x : X) : Prop :=
+    match j with
+    | O => is_pre c i a x
+    | Datatypes.S j' => ret c i (n_id a) (KBody j') x
+    end.
+  (* ci is the instance node a of instance i started: a nested run of graph g on the node's input *)
+  Definition child_of (c : config) (i : nat) (a : node) (ci : nat) : Prop :=
+    exists CI g, n_sub a = Some g /\ nth_error (c_insts c) ci = Some CI /\ i_parent CI = Some i /\
+                 i_graph CI = g /\ is_pre c i a (i_in CI).
+  (* y is the node's own output (before the post-handler) *)
+  Definition is_out (c : config) (i : nat) (a : node) (y : X) : Prop :=
+    match n_sub a with
+    | None => exists x, is_bodyin c i a (n_ps a) x /\ y = lout (n_id a) x
+    | Some g => exists ci G ys, child_of c i a ci /\ nth_error f g = Some G /\
+                                Forall2 (fin c ci) (map n_id (sinks G)) ys /\ y = mrg ys
+    end.
+  (* y is what the successors receive: what the post-handler returned if there is one *)
+  Definition is_final (c : config) (i : nat) (a : node) (y : X) : Prop :=
+    if n_post a then ret c i (n_id a) KPost y else is_out c i a y.
+  Definition exp_in (c : config) (i : nat) (a : node) (k : kind) (x : X) : Prop :=
+    match k with
+    | KPre => is_in c i a x
+    | KBody j => is_bodyin c i a j x
+    | KPost => is_out c i a x
+    end.
+
+
+  (* per object: who acquired its lock, in acquisition order / whose user function completed,
+     in completion order *)
+  Definition akey (e : aentry) : nat * N * kind := (a_inst e, a_node e, a_kind e).
+  Definition tkey (e : tentry) : nat * N * kind := (t_inst e, n_id (t_node e), t_kind e).
+  Definition acq_of (c : config) (o : nat) : list (nat * N * kind) :=
+    map akey (filter (fun e => Nat.eqb (a_obj e) o) (c_acq c)).
+  Definition done_of (c : config) (o : nat) : list (nat * N * kind) := map tkey (hist c o).
+
+  Definition is_stored (cs : option csph) : bool :=
+    match cs with Some CsStored => true | _ => false end.
+
+  (* what the register of node a holds at position p (st: the user function of the critical
+     section in progress has already returned) *)
+  Definition reg_ok (c : config) (i : nat) (a : node) (p : pos) (cs : option csph) : Prop :=
+    match p with
+    | PWait => True
+    | PReady x => if is_stored cs then ret c i (n_id a) KPre x else is_in c i a x
+    | PPred x => is_pre c i a x
+    | PRun x j => if is_stored cs then ret c i (n_id a) (KBody j) x else is_bodyin c i a j x
+    | PSub ci => child_of c i a ci
+    | PDone y => if is_stored cs then ret c i (n_id a) KPost y else is_out c i a y
+    | PFin y => is_final c i a y
+    end.
+
+  (* generator calls an object stands for *)
+  Definition ogen (r : objrec) : list nat :=
+    match o_origin r with OGen g => [g] | OResumed _ _ => [] end.
+
+  (* no instance sees object o (any more) *)
+  Definition dead (c : config) (o : nat) : Prop :=
+    forall i J, nth_error (c_insts c) i = Some J -> i_obj J <> Some o.
+
   (* ---------------------------------------------------------------- a scheduler (for examples) *)
 
   Definition candidates (c : config) : list choice :=
@@ -412,6 +559,65 @@ Section LTS.
       | [] => c
       | e :: es => run_sched (snd (nth (Nat.modulo k (Datatypes.S (List.length es))) (e :: es) e)) picks'
       end
+    end.
+
+  (* ---------------------------------------------------------------- replay helpers (Corr/C11.v)
+     Silent moves (ChAdv) are never enabled while a critical section is due at that node,
+     they never touch a state object, and they only enable more moves: performing all of
+     them eagerly loses no behaviour of [pstep]. *)
+
+  Definition adv_candidates (c : config) : list choice :=
+    flat_map (fun iJ => map (fun ns => ChAdv (fst iJ) (fst ns)) (i_ns (snd iJ)))
+             (combine (seq 0 (List.length (c_insts c))) (c_insts c)).
+
+  (* one pass over all nodes; the flag tells whether anything moved *)
+  Definition adv_pass (c : config) : config * bool :=
+    fold_left (fun cb ch => match pstep (fst cb) ch with
+                            | Some c' => (c', true)
+                            | None => cb
+                            end) (adv_candidates c) (c, false).
+
+  Fixpoint saturate (fuel : nat) (c : config) : config :=
+    match fuel with
+    | O => c
+    | Datatypes.S k => let '(c', moved) := adv_pass c in if moved then saturate k c' else c'
+    end.
+
+  (* one whole critical section of node n of instance i *)
+  Definition do_cs (c : config) (i : nat) (n : N) : option config :=
+    match pstep c (ChAcq i n) with
+    | Some c1 => match pstep c1 (ChLoad i n) with
+                 | Some c2 => match pstep c2 (ChStore i n) with
+                              | Some c3 => pstep c3 (ChRel i n)
+                              | None => None end
+                 | None => None end
+    | None => None
+    end.
+
+  (* first instance of graph g that belongs to run r *)
+  Fixpoint find_inst_from (k : nat) (l : list inst) (r : N) (g : nat) : option nat :=
+    match l with
+    | [] => None
+    | J :: l' => if N.eqb (i_run J) r && Nat.eqb (i_graph J) g then Some k
+                 else find_inst_from (Datatypes.S k) l' r g
+    end.
+  Definition find_inst (c : config) (r : N) (g : nat) : option nat := find_inst_from 0 (c_insts c) r g.
+
+  Definition ensure_run (c : config) (r : N) : option config :=
+    match find_inst c r 0 with
+    | Some _ => Some c
+    | None => pstep c (ChStart r)
+    end.
+
+  (* result of the run whose top-level instance is i: merge of the final outputs of the sinks *)
+  Definition inst_result (c : config) (i : nat) : option X :=
+    match nth_error (c_insts c) i with
+    | Some J => match nth_error f (i_graph J) with
+                | Some G => match omapM (fun s => final_of J (n_id s)) (sinks G) with
+                            | Some ys => Some (mrg ys)
+                            | None => None end
+                | None => None end
+    | None => None
     end.
 
   Definition all_final (c : config) : bool :=
@@ -440,21 +646,27 @@ Arguments i_obj {S X} i.
 Arguments i_in {S X} i.
 Arguments i_ns {S X} i.
 Arguments i_doneq {S X} i.
-Arguments mkObj {S} o_val o_holder o_init o_inst.
+Arguments OGen {S} g.
+Arguments OResumed {S} o m.
+Arguments mkObj {S} o_val o_holder o_init o_inst o_origin.
 Arguments o_val {S} o.
 Arguments o_holder {S} o.
 Arguments o_init {S} o.
 Arguments o_inst {S} o.
-Arguments mkT {X} t_obj t_inst t_node t_kind t_x.
-Arguments t_obj {X} t.
-Arguments t_inst {X} t.
-Arguments t_node {X} t.
-Arguments t_kind {X} t.
-Arguments t_x {X} t.
-Arguments mkCfg {S X} c_insts c_objs c_trace c_gens.
+Arguments o_origin {S} o.
+Arguments mkT {S X} t_obj t_inst t_node t_kind t_x t_seen t_out.
+Arguments t_obj {S X} t.
+Arguments t_inst {S X} t.
+Arguments t_node {S X} t.
+Arguments t_kind {S X} t.
+Arguments t_x {S X} t.
+Arguments t_seen {S X} t.
+Arguments t_out {S X} t.
+Arguments mkCfg {S X} c_insts c_objs c_trace c_acq c_gens.
 Arguments c_insts {S X} c.
 Arguments c_objs {S X} c.
 Arguments c_trace {S X} c.
+Arguments c_acq {S X} c.
 Arguments c_gens {S X} c.
 Arguments ChStart {S} r.
 Arguments ChAcq {S} i n.
